@@ -80,13 +80,14 @@ func run(c *vf.Ctx) {
 		replay(c)
 		return
 	}
-	c.SetRule("serix part: a case is one (type shape, value, validation on/off) triple; shapes come from a seeded grammar over run-time built Go types (reflect.StructOf/SliceOf/ArrayOf/MapOf/PointerTo, registered on a fresh serix.API per universe, dynamic struct types registered as implementations of two interface types) plus a hand-declared static universe (methods, embedding, custom codecs, named types); values are boundary-biased. evaluations = accepted encodings that were decoded and compared (binary + JSON) plus stream read-backs; distinct_nontrivial = distinct shape trees (hash of the rendered schema) with at least one accepted non-zero value; distinct_feature_pairs = parent∘child schema features co-occurring in an exercised shape; stream part: a case is (helper pair, writer, chunking reader, seeded payload sequence); stream sequences: 3-8 mixed helper calls into one writer (bytes.Buffer, empty / pre-sized ByteBuffer, with an in-place same-size rewrite of one element), checked against a byte-level reference writer: offset after every call, whole buffer image, read-back through 8 readers incl. PeekSize")
+	c.SetRule("serix part: a case is one (type shape, value, validation on/off) triple; shapes come from a seeded grammar over run-time built Go types (reflect.StructOf/SliceOf/ArrayOf/MapOf/PointerTo, registered on a fresh serix.API per universe, dynamic struct types registered as implementations of two interface types) plus a hand-declared static universe (methods, embedding, custom codecs, named types); leaf, element and key types are drawn from the predeclared types and from a pool of defined types over them (collections over defined one-byte numbers, bools, ints, strings, byte slices and byte arrays, as field, behind a pointer and as top-level value with WithTypeSettings; counters shapes_with/*), and time.Time, *big.Int and custom Serializables also sit behind pointers (field, optional field, element, map value, top-level Encode(&t)); values are boundary-biased. evaluations = accepted encodings that were decoded and compared (binary + JSON) plus stream read-backs; distinct_nontrivial = distinct shape trees (hash of the rendered schema) with at least one accepted non-zero value; distinct_feature_pairs = parent∘child schema features co-occurring in an exercised shape; stream part: a case is (helper pair, writer, chunking reader, seeded payload sequence); stream sequences: 3-8 mixed helper calls into one writer (bytes.Buffer, empty / pre-sized ByteBuffer, with an in-place same-size rewrite of one element), checked against a byte-level reference writer: offset after every call, whole buffer image, read-back through 8 readers incl. PeekSize")
 	a := &agg{c: c}
 	workers := runtime.NumCPU()
 	runSerix(c, a, workers)
 	runStream(c, a, workers)
 	runStreamSeq(c, a, workers)
 	runDS(c, a)
+	runIfaceSpecial(c, a)
 	c.SetExhaustive(false)
 	if n := c.Get("json_bytes_vary_with_map_order_observation"); n > 0 {
 		c.Note(fmt.Sprintf("observation only (the determinism clause is anchored in the binary encoder): JSONEncode/MapEncode of the same value gave different bytes after rebuilding its maps in %d cases - mapEncodeMap keeps Go's map iteration order in its insertion-ordered result", n))
@@ -120,6 +121,14 @@ func run(c *vf.Ctx) {
 	c.Require("boundary_utf8_cases/invalid", 150)
 	c.Require("boundary_utf8_cases/bounds-4..6", 20)
 	c.Require("feature_pairs", 90)
+	c.Require("iface_special_registrations_tried", 3)
+	// defined element / key types and specially treated types behind pointers (shapes with an accepted non-zero value)
+	for cl, min := range map[string]int{"array-of-named-u8": 30, "slice-of-named-u8": 20, "ptr-to-array-of-named-u8": 12, "toplevel-array-of-named-u8": 6,
+		"mapkey-named-u8": 10, "array-of-named-scalar": 30, "slice-of-named-scalar": 40, "map-of-named-scalar": 60, "coll-of-named-bytes": 15, "coll-of-named-bytearr": 15,
+		"named-collection-type": 50, "ptr-to-time": 120, "ptr-to-time/optional": 60, "ptr-to-time/field": 25, "ptr-to-time/slice-elem": 12,
+		"ptr-to-time/map-value": 8, "ptr-to-time/toplevel": 25, "ptr-to-time/in-interface-impl": 50, "optional-bigint": 40} {
+		c.Require("shapes_with/"+cl, c.Pick(min, 10*min))
+	}
 	c.Require("stream_cases", 300)
 	c.Require("stream_sequences", c.Pick(12000, 240000))
 	c.Require("stream_presized_buffer_cases", c.Pick(5000, 100000))
@@ -162,6 +171,9 @@ func replay(c *vf.Ctx) {
 		streamCase(st, r.Pair, r.Writer, r.Reader, r.PSeed)
 	case "ds":
 		dsCase(st, r.Pair, r.PSeed)
+	case "iface-special":
+		demandIfaceSpecial = true
+		runIfaceSpecial(c, a)
 	}
 	a.merge(st)
 }
